@@ -7,8 +7,11 @@ package main
 // isDeprecatedLicenseId / isOsiApproved flags are symbolic booleans. The JSON decoder stub
 // fills Go fields by their json tags (read from the SSA types), so a wrong tag is seen.
 
-// VH_generator [which k header_active header_deprecated]: which = licenses | exceptions;
-// header_* = the committed generated file up to and including "return []string{\n".
+// VH_generator [which k (prefix linePre linePost suffix) x files]: which = licenses | exceptions.
+// The template of each generated file is taken from the committed file itself by the driver:
+// committed = prefix ++ (linePre ++ id ++ linePost for every id the JSON data yields) ++ suffix
+// (the driver verifies that decomposition); re-running the generator on other data must
+// produce the same prefix and suffix around the entry lines of that data.
 func VH_generator(a []string) {
 	which, k := a[0], vAtoi(a[1])
 	ids := make([]string, k)
@@ -37,14 +40,14 @@ func VH_generator(a []string) {
 	// the statement's partition rule
 	active, deprecated := "", ""
 	for i := 0; i < k; i++ {
-		line := "\t\t\"" + ids[i] + "\",\n"
 		if dep[i] {
-			deprecated += line
+			if which == "licenses" {
+				deprecated += a[7] + ids[i] + a[8]
+			}
 		} else {
-			active += line
+			active += a[3] + ids[i] + a[4]
 		}
 	}
-	const trailer = "\t}\n}\n"
 	if which == "licenses" {
 		vAssert(vWrittenCount() == 2, "generator-files")
 		if vWrittenCount() != 2 {
@@ -57,8 +60,8 @@ func VH_generator(a []string) {
 		}
 		vAssert(vWrittenPath(ia) == "../spdxexp/spdxlicenses/get_licenses.go", "generator-files")
 		vAssert(vWrittenPath(id) == "../spdxexp/spdxlicenses/get_deprecated.go", "generator-files")
-		vAssert(vStrEq(vWrittenData(ia), a[2]+active+trailer), "generator-partition-and-format")
-		vAssert(vStrEq(vWrittenData(id), a[3]+deprecated+trailer), "generator-partition-and-format")
+		vAssert(vStrEq(vWrittenData(ia), a[2]+active+a[5]), "generator-partition-and-format")
+		vAssert(vStrEq(vWrittenData(id), a[6]+deprecated+a[9]), "generator-partition-and-format")
 		return
 	}
 	vAssert(vWrittenCount() == 1, "generator-files")
@@ -66,5 +69,5 @@ func VH_generator(a []string) {
 		return
 	}
 	vAssert(vWrittenPath(0) == "../spdxexp/spdxlicenses/get_exceptions.go", "generator-files")
-	vAssert(vStrEq(vWrittenData(0), a[2]+active+trailer), "generator-partition-and-format")
+	vAssert(vStrEq(vWrittenData(0), a[2]+active+a[5]), "generator-partition-and-format")
 }
